@@ -1060,7 +1060,26 @@ class Choice(object):
             if value is None:
                 continue
 
-            if issubclass(element.klass, (Atomic, AnyAtomic)):
+            if (element.klass in _sequence_of_classes) or (element.klass in _list_of_classes):
+                # a helper cooperates between the list and the tags
+                if isinstance(value, element.klass):
+                    helper = value
+                else:
+                    helper = element.klass(value)
+
+                # encode an opening tag
+                if element.context is not None:
+                    taglist.append(OpeningTag(element.context))
+
+                # encode the value
+                helper.encode(taglist)
+
+                # encode a closing tag
+                if element.context is not None:
+                    taglist.append(ClosingTag(element.context))
+                break
+
+            elif issubclass(element.klass, (Atomic, AnyAtomic)):
                 # a helper cooperates between the atomic value and the tag
                 helper = element.klass(value)
 
@@ -1117,8 +1136,8 @@ class Choice(object):
                 # check for context encoding
                 if element.context is None:
                     raise NotImplementedError("choice of a SequenceOf must be context encoded")
-                # match the context tag number
-                if tag.tagClass != Tag.contextTagClass or tag.tagNumber != element.context:
+                # match the opening tag number
+                if tag.tagClass != Tag.openingTagClass or tag.tagNumber != element.context:
                     continue
                 taglist.Pop()
 
